@@ -114,6 +114,7 @@ type result struct {
 	Killed    bool   `json:"killed,omitempty"`    // the call kept going after the budget and was stopped by Goexit
 	Handles   int    `json:"handles"`             // handles still open when the call returned
 	Escapes   int    `json:"escapes,omitempty"`   // backend operations refused because they left the sandbox
+	DeepHit   bool   `json:"deep_hit,omitempty"`  // probe stage: stopped because it operated more than deepLimit levels below the root
 	Crashed   string `json:"crashed,omitempty"`   // the backend operation class that ends the process (in-memory backend)
 }
 
